@@ -158,6 +158,91 @@ def work(item):
     return res
 
 
+def work_symknots(item):
+    """stored basis integrals with *symbolic break points* (real make_knots + BSplines constructor incl. _build_integrals):
+    for every admissible position of the symbolic break points the integral of each (periodic) basis function equals the oracle
+    value (t_{j+p+1}-t_j)/(p+1) restricted to the domain, computed by piecewise integration of the oracle polynomials"""
+    degree, periodic, ncells, which, family = item
+    res = H.worker_result()
+    m = numenv.mods()
+    numenv.enable()
+    symx.set_bv(None)
+    base = breaks_family(family, ncells)
+    st = {}
+
+    def body(ctx):
+        bs = []
+        for i in range(ncells + 1):
+            bs.append(SReal(z3.Real('b%d' % i)) if (which == 'all' or which == i) else K(base[i]))
+        for i in range(ncells):
+            ctx.assume(toreal(zt(bs[i])) < toreal(zt(bs[i + 1])))
+        arr = np.empty(ncells + 1, dtype=object)
+        for i, b in enumerate(bs):
+            arr[i] = b
+        knots = m['spl'].make_knots(arr, degree, periodic)
+        basis = m['spl'].BSplines(knots, degree, periodic, False)
+        st['bs'] = bs
+        return list(basis.integrals)
+
+    for ctx, (kind, val) in symx.explore(body, timeout_ms=30000, index_cap=64, maxpaths=400):
+        if kind != 'ok':
+            if kind == 'abort' and not val.inconclusive:
+                continue
+            res['obligations'] += 1
+            res['inconclusive'].append('symbolic knots (integrals): %s %r %r' % (kind, val, item))
+            continue
+        bs = st['bs']
+        T = SO.math_knots(bs, degree, periodic)
+        n = ncells if periodic else ncells + degree
+        # oracle: integral of B_j over its support clipped to [a,b]: sum over the cells of the domain of the exact integral of the cell polynomial
+        a, b = bs[0], bs[-1]
+        I = [K(0)] * (ncells + degree)
+        mpts = degree + 1
+        w = SO._newton_cotes_weights(mpts)
+        for cell in range(degree, degree + ncells):
+            lo, hi = T[cell], T[cell + 1]
+            xs = [lo + (hi - lo) * K(Fr(i, mpts - 1)) if mpts > 1 else lo for i in range(mpts)]
+            vals = [SO.cell_basis(T, degree, cell, xx, 0) for xx in xs]
+            for j in range(ncells + degree):
+                sacc = K(0)
+                for i in range(mpts):
+                    v = vals[i][j]
+                    if not (isinstance(v, int) and v == 0):
+                        sacc = sacc + v * K(w[i])
+                I[j] = I[j] + sacc * (hi - lo)
+        stored = val
+        if periodic:
+            st_w = [stored[i] + stored[n + i] if i < degree else stored[i] for i in range(n)]
+            I_w = [I[i] + I[n + i] if i < degree else I[i] for i in range(n)]
+        else:
+            st_w, I_w = stored, I
+        res['obligations'] += 1
+        verdict = 'unsat'
+        for j, (s_, e_) in enumerate(zip(st_w, I_w)):
+            sol = symx.nra_solver(list(ctx.solver.assertions()) + [toreal(zt(K(s_))) != toreal(zt(K(e_)))], 30000)
+            r = str(sol.check())
+            if r == 'sat':
+                mdl = sol.model()
+                bv = [str(symx.model_value(mdl, x)) for x in bs]
+                res['violations'].append(('quadrature:symbolic_knots', 'stored integral of basis function %d differs from its true integral for break points %s (degree %d, %s)' % (
+                    j, bv, degree, 'periodic' if periodic else 'clamped'), dict(kind='symknots', item=[str(i) for i in item], breaks=bv)))
+                verdict = 'sat'
+                break
+            if r != 'unsat':
+                verdict = 'unknown'
+        if verdict == 'unsat':
+            res['discharged'] += 1
+            res['nontrivial'].append('symknots|%r|%d' % (item, len(ctx.decisions)))
+            if len(res['samples']) < 1:
+                res['samples'].append(dict(part='stored integrals, symbolic break points', config=[str(i) for i in item]))
+        elif verdict == 'unknown':
+            res['inconclusive'].append('unknown (integrals, symbolic knots) %r' % (item,))
+    numenv.disable()
+    res['stats'] = symx.GLOBAL.as_dict()
+    symx.GLOBAL.__init__()
+    return res
+
+
 CANARIES = [
     ('antiderivative scale uses degree instead of degree+1', 'spl', [("inv_deg = 1 / (d + 1)", "inv_deg = 1 / (d + 1) if d != 2 else 1 / d")]),
     ('quadrature solve not transposed', 'si', [("self._bmat, self._l, self._u, self._basis.integrals, self._ipiv, trans=True)", "self._bmat, self._l, self._u, self._basis.integrals, self._ipiv, trans=False)")]),
@@ -209,6 +294,20 @@ def main():
             caught[r['canary']] = bool(r['violations'])
             continue
         run.merge(r)
+    if True:                # cheap enough for both tiers
+        sk = []
+        for d in (1, 2):
+            for per in (False, True):
+                for n in (2, 3):
+                    if per and n <= d:
+                        continue
+                    sk.append((d, per, n, 'all', 'graded'))
+        for per in (False, True):
+            for k in (1, 2):
+                sk.append((3, per, 4, k, 'irregular'))
+        for r in H.pmap(work_symknots, sk, run.args.jobs):
+            run.merge(r)
+        run.sections['symbolic_break_point_configs'] = len(sk)
     for cn in CANARIES:
         hit = caught.get(cn[0], False)
         run.canaries.append(dict(name=cn[0], detected=hit))
@@ -218,7 +317,7 @@ def main():
     run.stubs = sorted(set(numenv.STUBS))
     numenv.disable()
     run.bounds = dict(quick='degrees 1-5, 3 knot families, cells d+1/d+3, uniform cubic fast path 1,2,3,5 cells', thorough='degrees 1-6, 5 families, cells {1,2,3,d+1,8}', this_run=run.tier)
-    run.outside = ['rounding', 'LAPACK/SuperLU elimination (contract)', 'symbolic break points']
+    run.outside = ['rounding', 'LAPACK/SuperLU elimination (contract)', 'symbolic break points for the weights (thorough decides the stored basis integrals for all break points of degree 1-2 spaces with 2-3 cells and one symbolic break point of cubic spaces)']
     run.assumptions = ['exact reals for doubles', 'solver contracts as in C08']
     run.finish(
         explanation='Real _build_integrals / get_quadrature_coefficients / compute_interpolant on symbolic data: z3 decides that the '
